@@ -58,9 +58,29 @@ def diff(a, b):
     return [(n, b[n] - a[n]) for n in sorted(b)]
 
 
-def one_case(rng, lazy_only):
+def forced_programs():
+    """Every eager operation (sort, deduplication, materialization) directly above every kind of lazy input that has
+    zero, one, or several rows — the row count must not change whether the input is consumed at execute() time."""
+    import enc as _e
+    k = _e.K(1)
+    out = []
+    for nrows in (0, 1, 2, 3):
+        leaf = ("leaf", 1, ("it", 0), [k], [{k: i + 1} for i in range(nrows)])
+        sel = ("un", ("sel", ("cmp", "gt", ("ref", k), ("lit", 0))), leaf)
+        lazies = [leaf, sel, ("un", ("slice", 0, 1), sel), ("un", ("slice", 1, 2), sel), ("un", ("slice", 0, 1), leaf),
+                  ("un", ("calc", _e.K(2), ("add", ("ref", k), ("lit", 1))), leaf), ("chain", sel, sel)]
+        for t in lazies:
+            out.append(("un", ("sort", [(("ref", k), False)]), t))
+            out.append(("un", ("dedup",), t))
+            out.append(("mat", 9, t))
+            out.append(("un", ("slice", 0, 2), ("un", ("sort", [(("ref", k), True)]), t)))
+    return out
+
+
+def one_case(rng, lazy_only, p=None):
     weights = [3, 0, 3, 3, 3, 0] if lazy_only else [2, 3, 2, 2, 3, 3]
-    p, _ = ip.gen_prog(rng, rng.choice([1, 2, 3, 4, 6]), weights=weights, allow_markers=not lazy_only)
+    if p is None:
+        p, _ = ip.gen_prog(rng, rng.choice([1, 2, 3, 4, 6]), weights=weights, allow_markers=not lazy_only)
     w = ip.World()
     counters = {}
     try:
@@ -89,7 +109,8 @@ def run(ctx):
     rng = random.Random(ctx.seed)
     s1 = core.s1(ctx, ["Slice"], "Properties.C18", THEOREMS, extra_targets=["Model/CheckLazy.vo"])
     n = 600 if ctx.tier == "quick" else 12000
-    cases = []
+    cases = [c for c in (one_case(rng, False, p) for p in forced_programs()) if c is not None]
+    n += len(cases)
     while len(cases) < n:
         c = one_case(rng, lazy_only=len(cases) % 2 == 0)
         if c is not None:
